@@ -167,7 +167,7 @@ def run(cap):
     # lies between its lower corners (same flux surface row ordering)
     # ---- (iv) poloidal coordinates -----------------------------------------------------
     dy = nc["dy"]
-    out.append(rec("file.dy_constant", cls, dy.size, amax(np.abs(dy - dy.flat[0])), 0.0))
+    out.append(rec("file.dy_constant", cls, dy.size, amax(np.abs(dy - dy.flat[0])), 4 * float(np.spacing(abs(dy.flat[0])))))
     dyv = float(dy.flat[0])
     ycore = t.core_rows()
     exp_dy = 2 * np.pi / len(ycore) if ycore else 2 * np.pi / t.ny
@@ -184,7 +184,7 @@ def run(cap):
         got = th[0, ycore]
         goty = thy[0, ycore]
         out.append(rec("file.theta_core_0_to_2pi", cls, 2 * len(ycore), max(amax(np.abs(got - exp)), amax(np.abs(goty - (exp - 0.5 * dyv)))), 1e-12 * 2 * np.pi))
-        out.append(rec("file.theta_same_for_all_x", cls, th.size, amax(np.abs(th - th[0:1, :])), 0.0))
+        out.append(rec("file.theta_same_for_all_x", cls, th.size, amax(np.abs(th - th[0:1, :])), 1e-13 * 2 * np.pi))
         # legs: documented continuity -- each leg row differs from its y-neighbour by dy
         worst_t = 0.0
         nleg = 0
